@@ -159,13 +159,15 @@ func (fr *Frame) appendOp(st *State, s, t *Term, elem types.Type, tIsString bool
 		fc := ex.ctx.Fresh("content", ArraySort(SInt, es))
 		j := Bound{Name: ex.boundName("j"), Sort: SInt}
 		jv := V(j.Name, SInt)
-		pre := Implies(And(Le(IntLit(0), jv), Lt(jv, SLen(s))), Eq(Select(fc, Add(off, jv)), Select(oldContent, Add(SOff(s), jv))))
+		// stated over the index-relative reads sl_at(content, off, i) that specifications and loads use, with the
+		// bound variable as the index itself (no arithmetic inside the trigger term)
+		pre := Implies(And(Le(IntLit(0), jv), Lt(jv, SLen(s))), Eq(ex.slAt(fc, off, jv), ex.slAt(oldContent, SOff(s), jv)))
 		var post *Term
 		if tIsString {
 			post = TTrue
 		} else {
 			tc := Select(heap, SArr(t))
-			post = Implies(And(Le(IntLit(0), jv), Lt(jv, n)), Eq(Select(fc, Add(Add(off, SLen(s)), jv)), Select(tc, Add(SOff(t), jv))))
+			post = Implies(And(Le(SLen(s), jv), Lt(jv, newLen)), Eq(ex.slAt(fc, off, jv), ex.slAt(tc, SOff(t), Sub(jv, SLen(s)))))
 		}
 		// in place: everything outside the appended window is unchanged
 		keep := Implies(And(fits, Or(Lt(jv, Add(off, SLen(s))), Ge(jv, Add(off, newLen)))), Eq(Select(fc, jv), Select(oldContent, jv)))
